@@ -11,7 +11,7 @@ CONSTANTS MaxRecs, NNames
 Fold(ch) == <<ch>>
 MCDefaultDelim == <<58>>
 D == <<58>>
-Names == {<<n>> : n \in 1..NNames}
+Names == {<<n>> : n \in 1..(NNames - 1)} \cup {<<>>}      \* the empty prefix is a name like any other
 NoneV == <<0>>
 Opt(S) == {{}} \cup {{x} : x \in S}
 \* URI side is irrelevant to the remapping: the URI prefix is derived from the canonical name
